@@ -352,7 +352,7 @@ class Engine:
             if is_output_term(cond):
                 # no feasibility query on solver outputs (non-linear pools): both sides explored, unless the check
                 # states the cut 'first' (only for branches its property's quantities do not depend on)
-                if self.output_branches == 'first':
+                if self.output_branches == 'first' and not _is_eq_or_neq(cond):
                     alts = [True]
                     self.stats['output_branches_cut'] = self.stats.get('output_branches_cut', 0) + 1
                 else:
@@ -382,7 +382,7 @@ class Engine:
             idx = 0
         d = alts[idx]
         self.pos += 1
-        if not (self.output_branches == 'first' and is_output_term(cond)):
+        if not (self.output_branches == 'first' and is_output_term(cond) and not _is_eq_or_neq(cond)):
             # (a branch taken under the 'first' cut is a don't-care: its literal must not restrict the hypotheses)
             self.pc.append(cond if d else z3.Not(cond))
         self.decisions.append(('b', cond, d))
@@ -536,6 +536,13 @@ class Engine:
         r, s = self._check(self.hyps(pools) + list(extra), timeout_ms or self.assert_timeout_ms)
         self.stats[str(r)] += 1
         return str(r), (s.model() if r == z3.sat else None)
+
+
+def _is_eq_or_neq(cond):
+    """(dis)equality between two terms - PEPit's own consistency asserts; never cut by the 'first' policy"""
+    if z3.is_not(cond):
+        return _is_eq_or_neq(cond.arg(0))
+    return z3.is_eq(cond)
 
 
 def _is_eq(cond):
